@@ -1,5 +1,15 @@
 package eio
 
+import (
+	"errors"
+	"time"
+
+	"github.com/karagenc/socket.io-go/engine.io/parser"
+	"github.com/karagenc/socket.io-go/engine.io/transport"
+)
+
+var errVerifCut = errors.New("verif: connection reset by peer")
+
 // C06_eio_shutdown: the Engine.IO leg of "every connection end is reported exactly once and leaves nothing on the
 // server": a handshake (whose application callback takes its time: it yields) races Server.Close under all
 // interleavings at synchronisation points. Every session the application was told about (its NewSocketCallback ran)
@@ -26,5 +36,49 @@ func verifH_C06_eio_shutdown() {
 	srv.store.mu.RUnlock()
 	verifAssert(n == 0, "after the shutdown nothing of the connection is left in the session store")
 	verifAssert(closes == announced, "every session the application was told about is reported closed exactly once")
+	verifReach("end")
+}
+
+// C06_eio_cut_during_upgrade: the connection is cut while the server, handling the UPGRADE packet, is writing the backlog
+// of the polling transport to the new transport: the new transport reports its death (its close callback, with or
+// without an error) from inside that write. The end of the connection is still reported - the socket's OnClose runs
+// exactly once, with the transport-close / transport-error reason - it does not linger until a heartbeat times out.
+//
+//verif:unwind 30
+//verif:rand concrete
+//verif:sleep gate
+func verifH_C06_eio_cut_during_upgrade() {
+	old := &verifRecServerTransport{name: "polling"}
+	old.queued = []*parser.Packet{verifNumbered('1'), verifNumbered('2')}
+	closes := 0
+	var reason Reason
+	s := newServerSocket("sid1", []string{"websocket"}, old, transport.NewCallbacks(), time.Hour, time.Hour, NewNoopDebugger(), nil)
+	s.setCallbacks(&Callbacks{OnClose: func(r Reason, err error) {
+		closes++
+		reason = r
+	}})
+	nw := &verifRecServerTransport{name: "websocket"}
+	c := transport.NewCallbacks()
+	withErr := verifAnyBool()
+	atPacket := verifChoose(1, 2) // the write of which backlog packet finds the connection gone
+	n := 0
+	nw.onSend = func() {
+		n++
+		if n == atPacket {
+			if withErr {
+				c.OnClose("websocket", errVerifCut)
+			} else {
+				c.OnClose("websocket", nil)
+			}
+		}
+	}
+	s.upgradeTo(nw, c)
+	verifWaitQuiescent()
+	verifAssert(closes == 1, "a connection cut while the backlog is flushed during the upgrade is reported closed, exactly once")
+	if withErr {
+		verifAssert(reason == ReasonTransportError, "with the transport's error: transport error")
+	} else {
+		verifAssert(reason == ReasonTransportClose, "without an error: transport close")
+	}
 	verifReach("end")
 }
